@@ -233,6 +233,11 @@ def bg_correct(raw, bg, df=None):
     if not (raw.shape == bg.shape == df.shape and list(get_spacing(raw)) == list(get_spacing(bg)) == list(get_spacing(df))):
         raise BadImage("raw and background images must have the same shape and spacing")
 
+    if df.dtype.kind in 'iu':
+        # integer images (unsigned ones in particular) would wrap around
+        # in the subtractions where a pixel is below the dark count
+        df = df.astype(float)
+
     holo = (raw - df) / zero_filter(bg - df)
     holo = copy_metadata(raw, holo)
 
